@@ -24,7 +24,7 @@ RULE = ('cases are host applications: 0-8 resources (names with "secret" as pref
         'distinct by hash of the host description')
 ASSUMPTIONS = ['"secret" is matched as a lower-case substring of the resource name, as the statement spells it',
                'visible-control expectations are dropped for a host that contains a resource whose repr raises (the whole section is then reported as failed inline)']
-REQUIRED_REACH = ['fault-arguments:none', 'middleware:raising-repr', 'middleware:surrogate-repr', 'secret-resources-rendered', 'redaction-marker-seen:html', 'redaction-marker-seen:json', 'visible-control-seen:html',
+REQUIRED_REACH = ['schedules:meta-view-while-serving', 'fault-arguments:none', 'middleware:raising-repr', 'middleware:surrogate-repr', 'secret-resources-rendered', 'redaction-marker-seen:html', 'redaction-marker-seen:json', 'visible-control-seen:html',
                   'visible-control-seen:json', 'json-view-parsed', 'cookie-key-hosts', 'depth:2', 'name:prefix', 'name:infix', 'name:suffix',
                   'value:bytes', 'value:rawbytes', 'value:number', 'value:nested', 'value:object-repr', 'value:long-nospace', 'value:long-words', 'value:url-like', 'value:tuple', 'value:surrogate-str', 'value:nonascii', 'value:mixed-keys', 'value:self-ref', 'value:equal-twin', 'value:bad-repr', 'inline-section-failure-seen', 'host-context-processor', 'route:render-arg-object',
                   'fault-injected', 'same-meta-application-asked-through-two-applications']
@@ -516,14 +516,85 @@ def _judge(sh, host, record, fi):
 
 
 def plan(tier, seed):
-    return [{'label': 'rand-%d' % i, 'index': i, 'n': 70 if tier == 'quick' else 3200, 'timeout': 7200} for i in range(NSHARDS)]
+    return [{'label': 'rand-%d' % i, 'index': i, 'n': 70 if tier == 'quick' else 3200, 'timeout': 7200} for i in range(NSHARDS)] + \
+           [{'label': 'while-serving', 'kind': 'while-serving', 'timeout': 7200}]
+
+
+def views_while_serving(sh, spec):
+    """The meta pages are asked for while the host application serves its ordinary requests: single-preemption schedules of a
+    meta view (HTML, JSON) against a request to a host route rendered as strict JSON (sampled preemption points; both orders).
+    Either answer is what it is when asked alone."""
+    import os
+    from clastic import Application, Route, Response, MetaApplication, render_json, render_basic
+    from .. import sched
+    from ..common import REPO
+    roots = (os.path.join(REPO, 'clastic') + os.sep, '<sinter generated')
+
+    def factory(arg):
+        return lambda context: Response('rendered %r' % (arg,))
+
+    def build():
+        spec_obj = ReprCarrier('page-spec')
+        return Application([Route('/obj', lambda: {'a': 1}, spec_obj), Route('/tmpl', lambda: {'a': 1}, {'template': ReprCarrier('t')}),
+                            Route('/strict', lambda: {'n': [1, 2, 3], 't': 'plain', 'nested': {'k': None}}, render_json),
+                            Route('/basic', lambda: {'rows': [1, 2]}, render_basic),
+                            ('/_meta/', MetaApplication())],
+                           resources={'db_secret': 'Zq77x1Jw-SECRET', 'greeting': 'Zq77x2Jw-visible', 'obj': ReprCarrier('resource')},
+                           render_factory=factory)
+
+    def job(app, path):
+        def run():
+            return probe.request(app, 'GET', path, headers={'Accept': 'application/json'})
+        return run
+
+    def obs(ex):
+        if ex.exc is not None:
+            return ('exc', probe.safe_repr(ex.exc)[:200])
+        body = re.sub(rb'0x[0-9a-f]+', b'0x', ex.body)
+        if b'"app"' in body:
+            # the meta JSON view: what varies from one computation to the next (times, load, memory) is not the subject
+            try:
+                data = json.loads(body.decode('utf8'))
+                body = json.dumps({'resources': data.get('app', {}).get('resources'), 'routes': len(data.get('app', {}).get('routes') or []),
+                                   'mws': data.get('app', {}).get('middlewares')}, sort_keys=True, default=repr).encode()
+            except ValueError as e:
+                body = b'unparsable: ' + str(e).encode()
+        elif b'<html' in body.lower():
+            body = ('secret-shown' if b'Zq77x1Jw' in body else 'secret-hidden').encode() + b' ' + (b'visible-shown' if b'Zq77x2Jw' in body else b'visible-missing')
+        return (ex.status, (ex.header('Content-Type') or '').split(';')[0], body)
+    paths = ['/_meta/json/', '/_meta/', '/strict', '/basic']
+    want = {p: obs(job(build(), p)()) for p in paths}
+    app = build()
+    for a, b in (('/_meta/json/', '/strict'), ('/strict', '/_meta/json/'), ('/_meta/', '/strict'), ('/_meta/json/', '/basic'), ('/basic', '/_meta/json/')):
+        n_points = sched.count_points(job(app, a), roots)
+        step = max(1, n_points // (90 if spec.get('tier') == 'quick' else 1500))
+        for k in range(1, n_points + 1, step):
+            s = sched.Scheduler(2, sched.preempt_once(k), roots)
+            res = s.run([job(app, a), job(app, b)])
+            case = {'views_while_serving': [a, b], 'k': k}
+            sh.case(case, nontrivial=bool(s.switches), klass='meta-view-while-serving')
+            if s.broken:
+                sh.hit('watchdog-fired')
+                continue
+            sh.hit('schedules:meta-view-while-serving')
+            for (tag, val), p in zip(res, (a, b)):
+                got = obs(val) if tag == 'ok' else (tag, probe.safe_repr(val)[:200])
+                if got != want[p]:
+                    key = 'status-%s' % got[0] if p.startswith('/_meta') and isinstance(got[0], int) and got[0] != 200 else 'view-differs-while-serving'
+                    sh.violation('C18/' + key, '%s asked while %s is being served (preemption after %d steps of %s): %r - asked alone: %r'
+                                 % (p, b if p == a else a, k, a, got, want[p]), case)
+                    return
 
 
 def run_shard(sh, spec):
+    if spec.get('kind') == 'while-serving':
+        return views_while_serving(sh, spec)
     rng = Rng(spec['seed'], PROPERTY, spec['label'])
     for i in range(spec['n']):
         judge(sh, gen_host(rng, spec['index'] * 100000 + i))
 
 
 def replay(sh, case, spec):
+    if 'views_while_serving' in case:
+        return views_while_serving(sh, dict(spec, tier='thorough'))
     judge(sh, case['host'], record=False)
